@@ -136,7 +136,9 @@ def run(ctx):
             strict = rng.random() < 0.7
             add('rename', 'xf rename %s %s %s' % (proto.enc_bool(strict), proto.enc_list(list(rs.items()), lambda kv: '%s %s' % (util.enc_fspec(kv[0]), proto.enc(kv[1]))), tt),
                 lambda T=T, rs=rs, strict=strict: etl.rename(T, rs, strict=strict), dict(base, spec=repr(dict(rs)), strict=strict), nt)
-            add('sortheader', 'xf sortheader 0 %s %s' % (me, tt), lambda T=T, m=m: etl.sortheader(T, missing=m), dict(base, missing=repr(m)), nt)
+            rv = rng.random() < 0.5
+            add('sortheader', 'xf sortheader %s %s %s' % (proto.enc_bool(rv), me, tt), lambda T=T, m=m, rv=rv: etl.sortheader(T, reverse=rv, missing=m),
+                dict(base, missing=repr(m), reverse=rv), nt)
             mf = rng.choice(hdr)
             mi = rng.choice([0, 1, w - 1, w, -1])
             add('movefield', 'xf movefield %s %d N %s' % (proto.enc(mf), mi, tt), lambda T=T, mf=mf, mi=mi: etl.movefield(T, mf, mi), dict(base, field=mf, index=mi), nt)
@@ -203,6 +205,25 @@ def run(ctx):
             ctx.spec_fail('convert|item-assignment', 'convert(t)[field] = fn: the view, or another convert view created afterwards, is not what was asked for',
                           {'table1': repr(T1), 'table2': repr(T2), 'view1': o1, 'view2': o2, 'view3': o3})
 
+    # ---- rows handed on by convert(..., where=...) are plain rows: the next operator pads them with ITS `missing`
+    for ci in range(120 if ctx.thorough() else 30):
+        hdr = ['a', 'b', 'c'][:rng.choice([2, 3])]
+        T = gen.table(rng, hdr, default_pool=['x', 'y', 1, None], maxn=5, ragged=0.5)
+        sel = rng.choice([lambda r: False, lambda r: True, lambda r: len(r) > 1 and r[0] == 'x'])
+        v = etl.convert(T, 'a', lambda c: 'C', where=sel)
+        plain = [tuple(r) for r in v]
+        for name, f in (('cut', lambda t: etl.cut(t, *reversed(hdr), missing='M')), ('cat', lambda t: etl.cat(t, missing='M')),
+                        ('cutout', lambda t: etl.cutout(t, 'a', missing='M')), ('movefield', lambda t: etl.movefield(t, 'a', 1, missing='M'))):
+            try:
+                got, want = util.run_show(lambda: f(v)), util.run_show(lambda: f(plain))
+            except TypeError:
+                continue
+            ctx.case(('convert-where-then', name, repr(T)))
+            ctx.count('op:convert(where)-then-' + name)
+            if got != want or any(type(r) is not tuple for r in v):
+                ctx.spec_fail('convert|where|rows-handed-on', 'rows that convert(where=...) leaves alone are not handed on as plain rows: '
+                              'the next operator does not pad them with its own `missing`',
+                              {'table': repr(T), 'then': name, 'real': got, 'want': want, 'row types': sorted({type(r).__name__ for r in v})})
     # ---- several converters in one call (dict and positional list), every converter form: each field gets its own converter
     FORMS = [('upper', lambda v: v.upper()), ('lower', lambda v: v.lower()), ('strip', lambda v: v.strip()),
              (('replace', 'a', 'Z'), lambda v: v.replace('a', 'Z')), (['ljust', 4, '.'], lambda v: v.ljust(4, '.')),
